@@ -241,7 +241,16 @@ func (bc *BuildCache) deserialize(c Cacheable, srcModTime time.Time, r io.Reader
 	if srcModTime.After(buildTime) {
 		return buildTime, true, nil // Package is out-of-date, cache miss.
 	}
-	return buildTime, false, c.Read(gd.Decode)
+	if err := c.Read(gd.Decode); err != nil {
+		return buildTime, false, err
+	}
+	// The gzip checksum is only verified once the end of the stream is reached,
+	// which the gob decoder never does on its own. Drain the stream so that a
+	// corrupted file is detected instead of being returned as a valid package.
+	if _, err := io.Copy(io.Discard, zr); err != nil {
+		return buildTime, false, err
+	}
+	return buildTime, false, nil
 }
 
 // commonKey returns a part of the cache key common for all artifacts generated
